@@ -15,7 +15,7 @@ EXPLANATION = (
     "assignment that installs the reversed graph is control-dependent on specs.directed == true; by reaching definitions, the "
     "un-reversed initial definition reaches a kernel call (or the closure that captures it) only along the specs.directed == false "
     "edge; the node-name lookup for the result uses the same graph value as the kernel.  R-C06-2: the result depends on `weighted` "
-    "and `wf_improved` and on the kernels.  R-C06-6: the scaling switch handed to the per-node formula is the caller's `wf_improved` at every call site.  NOT decided: the formula's values, the Wasserman-Faust scaling arithmetic, 0 for "
+    "and `wf_improved` and on the kernels.  R-C06-6: the scaling switch handed to the per-node formula is the caller's `wf_improved` at every call site.  R-C06-7: every definition reaching the return of the per-node formula, evaluated as arithmetic over r, T and n at a grid of points (reaching definitions; nothing is run), is 0, (r-1)/T or (r-1)/T*(r-1)/(n-1).  NOT decided: the formula's values, the Wasserman-Faust scaling arithmetic, 0 for "
     "unreachable nodes -- numerical facts outside static reach."
 )
 TRUSTED = ["rustc MIR construction", "Graph::reverse returns the reversed graph (C15)"]
@@ -143,6 +143,7 @@ def run(ctx):
 
     rule3(ctx, prog, flows, root, kcalls)
     rule6(ctx, prog, flows, root)
+    rule7(ctx, prog, flows, root)
     # R-C06-4: the value is (r-1)/sum, times (r-1)/(n-1): a quotient of counts and distances.  Nothing in the
     # definition limits or rounds it -- with weights below 1 it exceeds 1
     ctx.rule("R-C06-4", "the closeness formula applies no limiting or rounding operation (min / max / clamp / round ..) to the quotient")
@@ -252,3 +253,52 @@ def rule6(ctx, prog, flows, root):
                 ctx.require(params == {"wf_improved"} and not callees, "R-C06-6", "flag|%s|%d" % (cb.short.split("::", 3)[-1], n), "the scaling switch in %s is `wf_improved`" % cb.short.split("::")[-1],
                             "the scaling switch handed to the per-node formula in %s derives from %s, not from `wf_improved` alone: the Wasserman-Faust factor is applied (or skipped) against the caller's request" % (cb.short, sorted(params) + sorted(c.split("::")[-1] for c in callees)), loc_str(t.span))
     ctx.floor("R-C06-6", "formula_calls", n, 2)
+
+
+def rule7(ctx, prog, flows, root):
+    """The value itself, as far as an expression can be compared with an expression: every definition that can reach the
+    return of the per-node formula is evaluated as arithmetic over r = number of (node, distance) entries, T = the sum of
+    the distances and n = the node count, at a grid of points, and must be 0, (r-1)/T or (r-1)/T * (r-1)/(n-1).
+    Variables assigned more than once are followed by reaching definitions; no branch is decided and nothing is run."""
+    from engines import forms_of_def, classify_forms
+
+    ctx.rule("R-C06-7", "every definition reaching the return of the per-node closeness formula is 0, (r-1)/T or (r-1)/T * (r-1)/(n-1) as an expression over the entry count r, the distance sum T and the node count n")
+    gnc = prog.find("closeness::get_node_centrality")
+    if not gnc:
+        ctx.undecided("R-C06-7", "formula", "the per-node formula is no longer a function of its own")
+        return
+    b = gnc[0]
+    fl = flows.of(b)
+    cnt = [b.local_name(i) for i in range(1, b.arg_count + 1) if b.local_ty(i) == "usize" and b.local_name(i)]
+    grid = [(r, t, n) for r in (2.0, 4.0, 7.0) for t in (3.0, 10.5) for n in (5.0, 9.0)]
+
+    def leaf_for(pt):
+        def leaf(d):
+            if d[0] == "call" and d[1].split("::")[-1] == "len":
+                return pt[0]
+            if d[0] == "call" and d[1].split("::")[-1] in ("sum", "fold"):
+                return pt[1]
+            if d[0] == "place" and d[1] in cnt:
+                return pt[2]
+            return None
+        return leaf
+
+    allowed = {"(r-1)/T": lambda pt: (pt[0] - 1) / pt[1], "(r-1)/T * (r-1)/(n-1)": lambda pt: (pt[0] - 1) / pt[1] * (pt[0] - 1) / (pt[2] - 1)}
+    seen, n = set(), 0
+    for (bb, st) in b.assigns_to(0):
+        n += 1
+        forms = forms_of_def(fl, st, leaf_for, grid)
+        if forms is None:
+            ctx.undecided("R-C06-7", "formula|%d" % n, "a value returned by %s is not plain arithmetic over the entry count, the distance sum and the node count; its form is not decided" % b.short.split("::")[-1], loc_str(st.span))
+            continue
+        ok, bad = classify_forms(forms, allowed, grid)
+        seen |= ok
+        ctx.require(not bad, "R-C06-7", "formula|%d" % n, "%s returns %s" % (b.short.split("::")[-1], " or ".join(sorted(ok))),
+                    "%s can return a value that is neither 0, (r-1)/T nor (r-1)/T * (r-1)/(n-1): at (r, T, n) = %s it is %s where the definition gives %s resp. %s" % (b.short.split("::")[-1], grid[0], [round(f[0], 6) for f in bad], round(allowed["(r-1)/T"](grid[0]), 6), round(allowed["(r-1)/T * (r-1)/(n-1)"](grid[0]), 6)), loc_str(st.span))
+    if n and not ctx_has_violation(ctx, "R-C06-7"):
+        ctx.require(set(allowed) <= seen, "R-C06-7", "both-forms", "both the plain and the Wasserman-Faust form are produced", "the forms produced are %s: %s is never returned" % (sorted(seen), sorted(set(allowed) - seen)), loc_str(b.span))
+    ctx.floor("R-C06-7", "return_definitions", n, 1)
+
+
+def ctx_has_violation(ctx, rid):
+    return any(f.rule == rid and f.status in ("violation", "undecided") for f in ctx.findings)
